@@ -286,6 +286,8 @@ class Interp:
             if 'fn' in c:
                 return ('fnptr', strip_generics(c.get('fn_resolved') or c['fn']))
             if 'str' in c:
+                if getattr(self, 'literal_strings', False):
+                    return ('ref', Cell(('sstr', [('lit', ord(ch)) for ch in c['str']])))      # (names_abs: text as a sequence of characters)
                 return ('ref', Cell(('opaque', 'str')))
             if c.get('uneval'):
                 nm = strip_generics(c['uneval'])
@@ -601,6 +603,8 @@ class Interp:
                     n = 1 if v[1] else 0
                 elif v[0] == 'int' and v[1] is not None:
                     n = v[1]
+                elif getattr(self, 'ext_switch', None) is not None:
+                    n = self.ext_switch(self, v, [int(val) for val, _bb in t['targets']])      # (a summary's own abstract values: the target it takes, or -1 for `otherwise`)
                 else:
                     raise Unmodelled('switch on %r in %s' % (v, body.name))
                 tgt = None
